@@ -152,6 +152,42 @@ CHECKS = {
              "other's scripts.",
         note='dict backend filter store; latitudes of RFC 5804 are allowed '
              'sets and counted'),
+    'C17': dict(
+        category='exploration', design='4/C17',
+        technique='runtime monitor: history checker over what each '
+                  'selection was told (\\Recent per message per read-write '
+                  'selection), RECENT-count agreement, under controlled '
+                  'schedules and shuffled directory order',
+        text='Deliveries while nobody has the mailbox selected, optional '
+             'EXAMINE, first read-write SELECT (must see all of them '
+             '\\Recent), then 2-3 sessions concurrently selecting, examining, '
+             'closing and reselecting while APPEND (also with a literal '
+             '\\Recent flag) and COPY arrive; per message the set of '
+             'read-write selections told \\Recent must have <= 1 element; '
+             'SELECT/untagged RECENT must equal the flags seen; STORE of '
+             '\\Recent must change nothing; dict and maildir.',
+        note='the read-write selection is the unit that may be told once; '
+             'os.listdir order is shuffled on maildir (POSIX leaves it '
+             'unspecified)'),
+    'C20': dict(
+        category='exploration', design='4/C20',
+        technique='runtime monitor: enter/exit log inside critical sections '
+                  'with online exclusion oracle; exhaustive sweep of director '
+                  'schedules for small programs on the controlled loop, '
+                  'cancellation at every point, real threads and forked '
+                  'processes for the threading and file locks',
+        text='Programs of 2-4 tasks with R/W acquisitions and yields inside '
+             'the critical section; all director schedules of small programs '
+             'are swept (stateless re-execution), random beyond; one '
+             'task.cancel() at every reachable point followed by a W||R||W '
+             'follow-up; after every program a fresh writer must acquire '
+             'without suspending; the threading lock runs on real threads '
+             'with a 10us switch interval, FileLock in virtual time and '
+             'across 2-4 forked processes with an O_EXCL marker file as the '
+             'clock-free exclusion witness.',
+        note='FIFO ready queue, director-owned futures are the only '
+             'scheduling freedom; FileLock expiry stealing (600 s) is out of '
+             'scope; thread/process tiers are stress-sampled'),
 }
 
 NOT_YET = 'check not built yet in this round (see DESIGN.md section 4)'
